@@ -64,7 +64,7 @@ EXTRA = {
  "C01": "; after-prior sweeps: every complete sequence of <=3 bytes (two chained in the thorough tier), then every continuation of <=2 bytes, against R-AUTO2",
  "C02": "; after-prior sweeps: every complete sequence of <=2 bytes (two chained in the thorough tier), then every continuation of <=2 bytes, against R-AUTO1",
  "C07": "; after-prior sweeps: every complete sequence (two chained in the thorough tier), then every continuation of <=2 bytes, against a fresh real decoder",
- "C03": "; AltGr level with CapsLock on; end-to-end also with Set 2 status bytes before the key, bit-serially after a glitch + clear(), and from Set 1; two-press decoder family with key-then-modifier pairs",
+ "C03": "; AltGr level with CapsLock on and, on non-letter keys, with Ctrl held in mapping mode; AltGr-level consistency with the plain AltGr state; end-to-end also with Set 2 status bytes before the key, bit-serially after a glitch + clear(), and from Set 1; two-press decoder family with key-then-modifier pairs",
  "C05": "; frame chains: 2048 first frames x representative middle frames (1-2) x 2048 last frames through one bit-serial decoder",
  "C06": "; add_word calls interleaved with the bits of a frame in the BFS; frame chains: 2048 first frames x representative middle frames (1-2) x 2048 last frames through one decoder",
  "C12": "; every character re-typed through EventDecoder after each of 2022 chord histories (0-2 modifiers held, a key tapped, all released) per layout and Ctrl mode",
